@@ -49,14 +49,14 @@ func cat(us ...[]Unit) []Unit {
 func init() {
 	clusterCheck("C01",
 		func() []Unit {
-			return scUnits(1, "elect3", "elect2", "write3", "crash3", "majority-restart", "transfer", "member", "fig8", "revote3")
+			return scUnits(1, "elect3", "elect2", "write3", "crash3", "majority-restart", "transfer", "member", "fig8", "revote3", "crash4")
 		},
 		func() []Unit {
-			return cat(scUnits(2, "elect3", "elect2", "write3", "crash3", "majority-restart", "transfer", "member", "member-race", "fig8", "revote3"), scUnits(1, "elect5"))
+			return cat(scUnits(2, "elect3", "elect2", "write3", "crash3", "majority-restart", "transfer", "member", "member-race", "fig8", "revote3", "crash4", "member-sor"), scUnits(1, "elect5"))
 		})
 	clusterCheck("C02",
 		func() []Unit {
-			return scUnits(1, "write3", "write3-pipe", "crash3", "snap3", "snap3-pipe", "snap3-trail1", "snap3-mono", "stale-suffix", "majority-restart", "member", "rcl3-snap")
+			return scUnits(1, "write3", "write3-pipe", "crash3", "snap3", "snap3-pipe", "snap3-trail1", "snap3-mono", "stale-suffix", "majority-restart", "member", "rcl3-snap", "autosnap3")
 		},
 		func() []Unit {
 			return scUnits(2, "write3", "write3-pipe", "crash3", "snap3", "snap3-pipe", "snap3-trail1", "snap3-mono", "stale-suffix", "majority-restart", "member", "fig8", "transfer")
@@ -77,17 +77,17 @@ func init() {
 		})
 	clusterCheck("C05",
 		func() []Unit {
-			return append([]Unit{{Name: "enum-commitment", Enum: enumC05}}, scUnits(1, "write3", "crash3", "member", "member-race", "fig8", "fig8-batch1", "transfer")...)
+			return append([]Unit{{Name: "enum-commitment", Enum: enumC05}}, scUnits(1, "write3", "write4", "crash3", "crash4", "member", "member-race", "fig8", "fig8-batch1", "transfer")...)
 		},
 		func() []Unit {
-			return append([]Unit{{Name: "enum-commitment", Enum: enumC05}}, scUnits(2, "write3", "crash3", "member", "member-race", "fig8", "fig8-batch1", "transfer", "snap3")...)
+			return append([]Unit{{Name: "enum-commitment", Enum: enumC05}}, scUnits(2, "write3", "write4", "crash3", "crash4", "member", "member-race", "fig8", "fig8-batch1", "transfer", "snap3")...)
 		})
 	clusterCheck("C07",
 		func() []Unit {
-			return append([]Unit{{Name: "enum-nextconfiguration", Enum: enumC07}}, scUnits(1, "member", "member-race", "member-trunc5", "transfer")...)
+			return append([]Unit{{Name: "enum-nextconfiguration", Enum: enumC07}}, scUnits(1, "member", "member-race", "member-trunc5", "member-sor", "transfer")...)
 		},
 		func() []Unit {
-			return append([]Unit{{Name: "enum-nextconfiguration", Enum: enumC07}}, scUnits(2, "member", "member-race", "member-trunc5", "transfer", "crash3")...)
+			return append([]Unit{{Name: "enum-nextconfiguration", Enum: enumC07}}, scUnits(2, "member", "member-race", "member-trunc5", "member-sor", "transfer", "crash3")...)
 		})
 	clusterCheck("C08",
 		func() []Unit {
@@ -105,10 +105,10 @@ func init() {
 		})
 	clusterCheck("C11",
 		func() []Unit {
-			return append([]Unit{{Name: "enum-compaction", Enum: enumC11}}, scUnits(1, "snap3", "snap3-trail1", "snap3-mono", "stale-suffix", "stale-suffix-trail", "member", "snap-member-slowfsm")...)
+			return append([]Unit{{Name: "enum-compaction", Enum: enumC11}}, scUnits(1, "snap3", "snap3-trail1", "snap3-mono", "stale-suffix", "stale-suffix-trail", "member", "snap-member-slowfsm", "autosnap3")...)
 		},
 		func() []Unit {
-			return append([]Unit{{Name: "enum-compaction", Enum: enumC11}}, scUnits(2, "snap3", "snap3-trail1", "snap3-mono", "stale-suffix", "stale-suffix-trail", "member", "snap-member-slowfsm", "crash3")...)
+			return append([]Unit{{Name: "enum-compaction", Enum: enumC11}}, scUnits(2, "snap3", "snap3-trail1", "snap3-mono", "stale-suffix", "stale-suffix-trail", "member", "snap-member-slowfsm", "autosnap3", "crash3")...)
 		})
 	timedAssumptions := []string{
 		"timed regime: virtual clock, timers fire strictly in deadline order, thread steps and message delivery take no virtual time",
